@@ -156,6 +156,16 @@ class AxisSlice(Contract):
         yield "within_nearest_points", L.and_(*[within_nearest(axis, i, iv) for i in sel])
 
 
+def _axis_slice_sweep(self, tier, seed):
+    from contracts.common import native_sweep, sorted_env
+
+    cases = [{"n": n, "kinds": k} for n in ((12, 40) if tier == "quick" else (12, 40, 150)) for k in proper_kind_pairs()]
+    return native_sweep(self, cases, envs=lambda case, rng: sorted_env("a", case["n"], rng, -20, 20), seed=seed)
+
+
+AxisSlice.bounded_checks = _axis_slice_sweep
+
+
 class AxisSliceMonotone(Contract):
     """(iv): I subset of I' implies slice(I) subset of slice(I') - two runs of the real function."""
 
